@@ -189,7 +189,9 @@ func (publisher *Publisher) Places() map[string]*place {
 		publisher.placesMap = map[string]*place{}
 
 		// Get all of the unique place names.
-		for placeTag, node := range publisher.doc.Places() {
+		for _, placeAndNode := range placesInDocumentOrder(publisher.doc) {
+			placeTag, node := placeAndNode.place, placeAndNode.node
+
 			// When living individuals are hidden the places that are only
 			// known because of them must not be published either.
 			if publisher.options.LivingVisibility == LivingVisibilityHide {
@@ -268,4 +270,35 @@ func (publisher *Publisher) Places() map[string]*place {
 	}
 
 	return publisher.placesMap
+}
+
+type placeAndNode struct {
+	place *gedcom.PlaceNode
+	node  gedcom.Node
+}
+
+// placesInDocumentOrder returns the same places as Document.Places() in the
+// order that they appear in the document.
+//
+// Document.Places() returns a map which does not have an order. Several places
+// can share the same page (when they only differ by their case or punctuation)
+// and the first of them is used for the name of the page, so without an order
+// the published pages would be different each time.
+func placesInDocumentOrder(doc *gedcom.Document) (places []placeAndNode) {
+	var extractPlaces func(n gedcom.Node)
+	extractPlaces = func(n gedcom.Node) {
+		for _, node := range n.Nodes() {
+			if place, ok := node.(*gedcom.PlaceNode); ok {
+				places = append(places, placeAndNode{place, n})
+			} else {
+				extractPlaces(node)
+			}
+		}
+	}
+
+	for _, node := range doc.Nodes() {
+		extractPlaces(node)
+	}
+
+	return
 }
